@@ -158,7 +158,7 @@ func (r *rwRT) ruleScopeAgree(seqForHolds bool, mode string) {
 			fmt.Sprintf("%d of %d yielding lowering paths are rooted at %q, which does not absorb the Break signal: a `break` placed after a yield inside it (rewritten to seq.Break() by the branch pass, because it sits in a Bind thunk) leaves the enclosing loop instead of the %s", yielding-rootedOK, yielding, example, strings.TrimSuffix(kind, "Stmt")))
 	}
 	// (b) yielding for-post must run on Continue
-	postBad, postPaths, postShared, postNested := 0, 0, 0, 0
+	postBad, postPaths, postShared, postNested, postAfterYield := 0, 0, 0, 0, 0
 	where := ""
 	for _, p := range runShape("ForStmt", func(d string) bool { return strings.Contains(d, "post=true") }) {
 		isYieldPost := false
@@ -211,6 +211,17 @@ func (r *rwRT) ruleScopeAgree(seqForHolds bool, mode string) {
 		for _, pb := range postBlocks {
 			if strings.HasPrefix(pb, "ret:") {
 				postShared++
+				// appended to the body's own block: only sound when the body's last statement cannot yield, i.e.
+				// the combine table was consulted for that block and answered "not required" on this path
+				justified := false
+				for _, l := range p.o.St.Labels {
+					if epochRe.ReplaceAllString(l, "") == "combineRequired("+pb+")=false" {
+						justified = true
+					}
+				}
+				if !justified {
+					postAfterYield++
+				}
 			}
 		}
 		for _, e := range p.o.St.Events {
@@ -244,6 +255,9 @@ func (r *rwRT) ruleScopeAgree(seqForHolds bool, mode string) {
 		c.check(postNested == 0, "RW.TMPL.FORPOST", "yielding for-post is not nested inside the body's thunk", pos,
 			fmt.Sprintf("%d yielding-post paths: the lowered post statement is never placed in a continuation of the body's statements", postPaths),
 			fmt.Sprintf("%d yielding-post path(s) lower the post statement into a block nested inside the loop body's own thunk (as the continuation of the body's last statement): the post expression resolves names against variables declared in the loop body", postNested))
+		c.check(postAfterYield == 0, "RW.TMPL.FORPOST", "yielding for-post is appended to the body only after a statement that cannot yield", pos,
+			fmt.Sprintf("%d yielding-post paths: wherever the post statement is appended to the body's own block, the combine table had answered that the body's last statement cannot yield", postPaths),
+			fmt.Sprintf("%d yielding-post path(s) append the lowered post statement to the body's block without the combine table having excluded a yielding last statement: after a body ending in a yielding switch the post statement sits behind the `return Bind(…)` of the cases and is skipped in every iteration that yields", postAfterYield))
 		c.check(postShared == 0, "RW.TMPL.FORPOST", "yielding for-post is lowered into a scope of its own", pos,
 			fmt.Sprintf("%d yielding-post paths lower the post statement into a fresh block", postPaths),
 			fmt.Sprintf("%d of %d yielding-post paths append the lowered post statement to the body's own block: the post expression resolves names against variables declared in the loop body (`for ; c; Yield(a) { a := ...; n++ }` yields the body's a)", postShared, postPaths))
